@@ -57,6 +57,8 @@ func runC20(w *World, r *Report) {
 	r.Rule("C20/RECOVER-PRESENT", "the recover wrappers the property relies on exist and are installed before anything else in their function (template rendering, --set key parsing, schema validation)", 4)
 	r.Rule("C20/DEPTH-LIMIT", "the template include/tpl depth counter is one shared map handed down to every nested closure, and the execution of an included template is unreachable on the over-limit edge; the --set nesting limit is tested on the recursive edge", 3)
 
+	r.Rule("C20/DECODE-PTR", "a pointer variable filled by handing its address to a YAML/JSON/TOML decoder (nil after an empty or null document, without an error) is dereferenced, returned or handed on only where it was tested non-nil or the decoder's error is non-nil", 1)
+
 	scope, entries := c20Scope(w, r)
 	prot := recoverProtected(w, scope, entries)
 	c20Panic(w, r, scope, prot)
@@ -68,6 +70,7 @@ func runC20(w *World, r *Report) {
 	c20NilHole(w, r)
 	c20IndexGuard(w, r)
 	c20ValidateLast(w, r)
+	c20DecodePtr(w, r)
 }
 
 func c20Scope(w *World, r *Report) (map[*ssa.Function]bool, map[*ssa.Function]bool) {
